@@ -23,7 +23,24 @@ using namespace phosg;
 
 typedef Vector2<int64_t> P2;
 typedef Vector3<int64_t> P3;
+// a value type whose move constructor / move assignment leave a visible mark (-777) in the source: an entry that is
+// still in the tree but was moved from shows up in every later observation
+struct MV {
+  int64_t v;
+  MV(int64_t x = 0) : v(x) {}
+  MV(const MV&) = default;
+  MV& operator=(const MV&) = default;
+  MV(MV&& o) noexcept : v(o.v) { o.v = -777; }
+  MV& operator=(MV&& o) noexcept {
+    v = o.v;
+    if (&o != this) o.v = -777;
+    return *this;
+  }
+  operator int64_t() const { return v; }
+  bool operator==(const MV& o) const { return v == o.v; }
+};
 typedef KDTree<P2, int64_t> T2;
+typedef KDTree<P2, MV> T2m;
 typedef KDTree<P3, int64_t> T3;
 
 static string vec(const vector<long>& v) {
@@ -367,6 +384,8 @@ int main(int argc, char** argv) {
       int len = r.chance(15) ? 300 : (int)r.range(10, 120);
       if (h % 3 == 2)
         random_history<T3, P3>(tr, r, 3, len);
+      else if (h % 3 == 1)
+        random_history<T2m, P2>(tr, r, 2, len);
       else
         random_history<T2, P2>(tr, r, 2, len);
     }
